@@ -3,6 +3,7 @@ package props
 import (
 	"bytes"
 	"fmt"
+	"strings"
 
 	tls "github.com/refraction-networking/utls"
 
@@ -143,8 +144,41 @@ func c17Scenario(clients []gridClient) *explore.Scenario {
 					return inner(n, t, data)
 				}
 			}
+			// environment of the connection: 0 plain; 1 the caller built the hello twice
+			// (BuildHandshakeStateWithoutSession, BuildHandshakeState) before Handshake; 2 the *Config is
+			// shared with a second connection of another parrot family that builds its own hello while
+			// this one waits for the server's answer (UClient does not clone the Config)
+			env := x.Choose("env", 3)
+			what += fmt.Sprintf(" env=%d", env)
+			ccfg := g.config("example.com")
+			prep := g.prepare()
+			if env == 1 {
+				prep = withBuildOrder(prep, 2)
+			}
+			if env == 2 {
+				inner := hk.Out
+				built := false
+				hk.Out = func(n int, t uint8, data []byte) []byte {
+					if t == 2 && !built {
+						built = true
+						other := tls.HelloFirefox_120
+						if strings.Contains(g.Name, "Firefox") {
+							other = tls.HelloChrome_120
+						}
+						pe, pse := peer.Pipe()
+						pse.SetIdle()
+						b := tls.UClient(pe, ccfg, other)
+						func() {
+							defer func() { recover() }()
+							b.BuildHandshakeState()
+						}()
+						pe.Close()
+					}
+					return inner(n, t, data)
+				}
+			}
 			var cleanup func()
-			hs := peer.Run(g.config("example.com"), g.ID, scfg, peer.Opts{Prepare: g.prepare(), Echo: true,
+			hs := peer.Run(ccfg, g.ID, scfg, peer.Opts{Prepare: prep, Echo: true,
 				OnConns: func(u *tls.UConn, s *tls.Conn) { cleanup = installHooks(s, hk) }})
 			if cleanup != nil {
 				cleanup()
@@ -279,7 +313,7 @@ func c17Scenarios(thorough bool) []*explore.Scenario {
 func init() {
 	register(&Prop{ID: "C17", Level: "exploration", Variant: "A", Scenarios: c17Scenarios,
 		Run: func(c *explore.Check, thorough bool) {
-			c.Rule = "every TLS 1.3 client without PSK (all IDs, 2 (64) seeds per randomized kind, custom specs) x every classical group it lists without a share (forced through the verif group hook) x cookie {none, 1, 32, 255, 1024 bytes} (added to the HRR before it enters the server transcript) x HRR kind {valid, group not listed, group already shared, neither group nor cookie, second HRR}: valid => CH2 equals CH1 extension by extension except key_share (exactly one fresh share of the requested group), the echoed cookie and padding, and the handshake completes with echo; invalid => client error and no further ClientHello. distinct = (client, kind, group, cookie)"
+			c.Rule = "every TLS 1.3 client without PSK (all IDs, 2 (64) seeds per randomized kind, custom specs) x every classical group it lists without a share (forced through the verif group hook) x cookie {none, 1, 32, 255, 1024 bytes} (added to the HRR before it enters the server transcript) x HRR kind {valid, group not listed, group already shared, neither group nor cookie, second HRR} x environment {plain, hello built twice before Handshake, *Config shared with a connection of another parrot family that builds its hello while this one awaits the server}: valid => CH2 equals CH1 extension by extension except key_share (exactly one fresh share of the requested group), the echoed cookie and padding, and the handshake completes with echo; invalid => client error and no further ClientHello. distinct = (client, kind, group, cookie)"
 			c.Assumptions = []string{"the utls server with verif hooks H1/H2 is the HelloRetryRequest source; its transcript sees the modified HRR", "the cookie insertion index is drawn from a fresh PRNG and is observed, not enumerated", "handshake completion after an HRR is required for cookie-less HRRs only: the only server available rejects a cookie in the second ClientHello, so with a cookie the check judges the shape of CH2"}
 			runAll(c, c17Scenarios(thorough), 0)
 			c.Gate(c.Total.Counters["valid_hrr_cases"] > 200, "non-vacuity: %d valid HRR cases", c.Total.Counters["valid_hrr_cases"])
